@@ -181,6 +181,7 @@ func (r *Rand) Bool(p float64) bool         { return r.r.float() < p }
 func (r *Rand) Range(lo, hi int) int        { return lo + r.r.intn(hi-lo+1) }
 func (r *Rand) Pick(xs ...int) int          { return xs[r.r.intn(len(xs))] }
 func (r *Rand) PickF(xs ...float64) float64 { return xs[r.r.intn(len(xs))] }
+func (r *Rand) PickS(xs ...string) string   { return xs[r.r.intn(len(xs))] }
 
 // Intn draws from the run's PRNG (only call while holding the token).
 func Intn(n int) int {
